@@ -103,6 +103,7 @@ def parseOp (j : Json) : Option Op :=
   let s := jStr j "subj"
   match jStr j "kind" with
   | "create" => some (.create s)
+  | "createleg" => some (.create s)   -- v1 naming: the events use an alias for the name Create picks (a renaming of subjects)
   | "addsvc" => some (.addSvc s (jStr j "a"))
   | "updsvc" => some (.updSvc s (jStr j "a") (jStr j "b"))
   | "delsvc" => some (.delSvc s (jStr j "a"))
@@ -113,6 +114,7 @@ def parseOp (j : Json) : Option Op :=
 def parseFault (j : Json) : Fault :=
   match jStr j "fault" with
   | "fail" => .failNuts
+  | "failctx" => .failNuts   -- the request context is cancelled as well: the clean-up does not look at it
   | "stop" => .stop (jNat j "k")
   | "logerr" => .logFail (jNat j "k")
   | "logstop" => .logStop (jNat j "k")
